@@ -96,7 +96,7 @@ func runScale(c scaleCase) []vkit.Violation {
 	var before []string
 	for _, t := range append(append([]string{}, tmpls...), "unrelated") {
 		for i := 0; i <= c.Old+2; i++ {
-			for _, set := range []string{"set", "other", "set-x"} {
+			for _, set := range []string{"set", "other", "set-x", "set-1", "set-10"} {
 				n := fmt.Sprintf("%s-%s-%d", t, set, i)
 				objs = append(objs, mkPVC(n))
 				before = append(before, n)
@@ -557,6 +557,9 @@ var _ = rand.Int
 type seqOp struct {
 	Kind string `json:"kind"` // scale | external
 	N    int    `json:"n"`
+	// FailDelete (scale): the API server answers every claim deletion of this request with an error that is not
+	// "not found" (etcd timeout): the claims stay, the scale change itself succeeds
+	FailDelete bool `json:"failDelete,omitempty"`
 }
 
 type seqCase struct {
@@ -593,7 +596,15 @@ func runSeq(c *seqCase) []vkit.Violation {
 	}
 	man := mans[0]
 	live := c.Start
+	failDeletes := false
+	cli.PrependReactor("delete", "persistentvolumeclaims", func(a k8stesting.Action) (bool, runtime.Object, error) {
+		if failDeletes {
+			return true, nil, fmt.Errorf("etcdserver: request timed out")
+		}
+		return false, nil, nil
+	})
 	for i, op := range c.Ops {
+		failDeletes = op.Kind == "scale" && op.FailDelete
 		switch op.Kind {
 		case "external":
 			set, _ := cli.AppsV1().StatefulSets(ns).Get(context.TODO(), "set", metav1.GetOptions{})
@@ -608,7 +619,8 @@ func runSeq(c *seqCase) []vkit.Violation {
 				add("C18/change-scale-error", "step %d: ChangeScale(%d): %v", i, op.N, err)
 				return vs
 			}
-			if c.Delete {
+			failDeletes = false
+			if c.Delete && !op.FailDelete {
 				for _, t := range tmpls {
 					for o := op.N; o < live; o++ {
 						delete(claims, fmt.Sprintf("%s-set-%d", t, o))
@@ -646,6 +658,9 @@ func TestC18Seq(t *testing.T) {
 			if rapid.IntRange(0, 3).Draw(t, fmt.Sprintf("ext%d", i)) == 0 {
 				op.Kind = "external"
 			}
+			if op.Kind == "scale" && rapid.IntRange(0, 3).Draw(t, fmt.Sprintf("failDelete%d", i)) == 0 {
+				op.FailDelete = true
+			}
 			if rapid.IntRange(0, 2).Draw(t, fmt.Sprintf("back%d", i)) == 0 {
 				op.N = c.Start // back to where the manager started
 				back = true
@@ -654,7 +669,14 @@ func TestC18Seq(t *testing.T) {
 		}
 		vs := rec.Filter(runSeq(c))
 		b, _ := json.Marshal(c)
-		rec.Eval(len(c.Ops) >= 2 && back, vkit.Digest(string(b)), "sequence")
+		cls := []string{"sequence"}
+		for _, op := range c.Ops {
+			if op.FailDelete {
+				cls = append(cls, "sequence/claim-deletions-fail-in-one-request")
+				break
+			}
+		}
+		rec.Eval(len(c.Ops) >= 2 && back, vkit.Digest(string(b)), cls...)
 		if len(vs) > 0 {
 			p := vkit.SaveViolation("C18", "TestC18Seq", c, vs, nil)
 			t.Fatalf("%s (replay %s)", vs[0], p)
